@@ -79,6 +79,10 @@ func init() {
 		r := Value{app(f, a[0].T, a[1].T), types.NewInterfaceType(nil, nil)}
 		if t := ex.w.extensionType(a[1].T); t != nil {
 			ex.assumeFact(p, "(= (ityp "+r.T+") "+fmt.Sprint(ex.c.TID(t))+")")
+			// absent extension => default value (no sebuf extension declares a non-zero default)
+			has := app(ex.c.Fun("obs:proto.HasExtension", []string{"Iface", "Iface"}, "Bool"), a[0].T, a[1].T)
+			ex.assumeFact(p, implies(not(has), eq(ex.assertedValue(r, t).T, ex.c.Zero(t))))
+			ex.c.Trust("proto.GetExtension returns the zero value when proto.HasExtension is false (sebuf extensions declare no defaults)")
 		}
 		return []Value{r}
 	})
